@@ -54,6 +54,7 @@ RunStmts(c, stmts, i, yyval) ==
            [] st.op = "types0" -> RunStmts([c EXCEPT !.types = 0], stmts, i + 1, yyval)
            [] st.op = "typesinc" -> RunStmts([c EXCEPT !.types = @ + 1], stmts, i + 1, yyval)
            [] st.op = "setroot" -> RunStmts([c EXCEPT !.root = ArgVal(c, st.val).s], stmts, i + 1, yyval)
+           [] OTHER -> RunStmts(c, stmts, i + 1, yyval)         \* "opaque": a statement the extractor found to touch neither the builder nor the semantic values
 
 Reduce(c, r) ==
     LET rule == Ru(r)
